@@ -10,3 +10,4 @@ import OsyrisProofs.C09
 #print axioms Osyris.C09.C09_cross_phys
 #print axioms Osyris.C09.mul_phys
 #print axioms Osyris.C09.sub_phys
+#print axioms Osyris.C09.C09_norm_phys
